@@ -97,17 +97,22 @@ class Context:
             self.undecided.append(f"{self.prop}/{getattr(fn, '__name__', 'rule')}: {exc}")
 
     def rule_any(self, *fns) -> None:
-        """Alternative deciders of the same clause: undecided only if every one of them is."""
+        """Alternative deciders of the same clause, most semantic first: the first one that decides (finishes without an AnalysisError) gives the verdict;
+        what an undecided alternative had recorded so far is dropped.  The clause is undecided only if every alternative is."""
         errs = []
         for fn in fns:
+            mark = (len(self.obligations), len(self.findings))
             try:
                 fn(self)
             except AnalysisError as exc:
+                del self.obligations[mark[0]:]
+                del self.findings[mark[1]:]
                 errs.append(f"{self.prop}/{getattr(fn, '__name__', 'rule')}: {exc}")
-        if len(errs) == len(fns):
-            self.undecided.extend(errs)
-        elif errs:
-            self.notes.setdefault("alternative_rule_undecided", []).extend(errs)
+                continue
+            if errs:
+                self.notes.setdefault("alternative_rule_undecided", []).extend(errs)
+            return
+        self.undecided.extend(errs)
 
     def floor(self, rule: str, what: str, count: int, minimum: int) -> None:
         """Vacuity guard: the instance count confirmed by reading must still be found."""
